@@ -190,3 +190,16 @@ P('C17', 'other',
   'the reporter. S5 every aggregate applies exp(sum(log(1+r)))-1 to a groupby partition of the given returns. Not decided: numerical equality '
   'with the definitions for all curves; pandas groupby semantics.')
 TECHNIQUE['C17'] = 'static analysis: recurrence base-case rule, canonical formula-slot matching, provenance of the series passed to each statistic, sibling agreement of the reporters'
+
+P('C18', 'proof',
+  'Closed-world enumeration of nondeterminism sources over the whole package, each discharged mechanically (a new source anywhere is a '
+  'violation until tabled): (set) every set-typed expression that is iterated, listified, returned or unpacked is under sorted(), except the '
+  'tabled Signal.update_assets whose order reaches only per-asset keyed state (every loop over a signal\'s asset list is checked); (fs) '
+  'directory listings are sorted or feed dicts that are only looked up by key; (random) no random/uuid/time/now/id/hash call except the '
+  'tabled uuid4, whose value (order_id) is never compared, used as key, sort key or operand - only formatted or stored; (shared) no '
+  'module-level binding is written at run time except the print switch, which only guards print statements; no global statement, no '
+  'class-level mutable, mutable default arguments never mutated; (memo) the only memoised functions are get_bid/get_ask, pure, reading only '
+  'frames written once in the constructor, keyed by instance identity (no __eq__/__hash__), and the pricing/alpha/sizing components write no '
+  'attribute outside their constructors; (sort) every sort key is free of identity/randomness and the fill batch is a stable sort over FIFO '
+  'queues drained in portfolio-creation order. Trusted: determinism of pandas/numpy and of dict insertion order.')
+TECHNIQUE['C18'] = 'static analysis: closed-world source enumeration (sets, listdir, random/time, globals, memoisation, sorts) with taint and effect discharge rules'
